@@ -666,6 +666,41 @@ def season_family(chk):
                mismatches=len(bad), branches=br)
 
 
+def fractional_step_family(chk):
+    """Round 7 (harness/x3_util.py): FRACTIONAL hour-dividing time steps on SimParam alone. SimParam accepts every dt
+    with 3600 % dt == 0 - also 112.5, 22.5, 7.5, 2.5, 0.5 s ... (UWG.dtsim is an int, so these reach the clock only when
+    SimParam is constructed directly). A time step the clock accepts must produce the calendar: start + k * dt."""
+    import x3_util as X3
+    core.repo_python_path()
+    from uwg.simparam import SimParam
+    members = X3.fractional_members(chk.rng, chk.tier == 'quick')
+    nsteps, bad, br = 0, [], {}
+    for (dt, M, D, seconds) in members:
+        n, b = X3.fractional_run(SimParam, dt, M, D, seconds)
+        nsteps += n
+        key = 'dt < 1 s' if dt < 1 else 'dt 1 .. 10 s' if dt < 10 else 'dt > 10 s'
+        br[key] = br.get(key, 0) + 1
+        if b is not None:
+            bad.append(dict(b, dt=dt, M=M, D=D, seconds=seconds))
+    for b in bad[:3]:
+        chk.violation('impl-violation', 'SimParam clock vs true calendar for a fractional hour-dividing time step',
+                      case={'dt': b['dt'], 'M': b['M'], 'D': b['D'], 'k': b['k'], 'seconds': b['seconds'],
+                            'steps per hour (3600 / dt)': 3600 / b['dt'], 'replay_kind': 'fractional-step'},
+                      observed=b['observed'], expected=b['expected'],
+                      how='SimParam(dt, 3600, M, D, days) - accepted, since 3600 % dt == 0 -; k x update_date(); compare (month, '
+                          'day, julian, secDay, hourDay) with the non-leap calendar instant start + k * dt (exact in doubles: '
+                          'every accepted fractional step is a dyadic rational)')
+    chk.direct('calendar-oracle(SimParam alone, fractional hour-dividing time steps)', nsteps, len(members),
+               'the real SimParam constructed directly with a FRACTIONAL time step that divides the hour (accepted by its own '
+               'test 3600 % dt == 0; exactly the dyadic steps 3600 / n: 112.5, 56.25, 37.5, 22.5, 12.5, 7.5, 4.5, 2.5, 1.5, '
+               '0.5 ... - 40 of them >= 0.5 s): quick 0.5 / 2.5 / 7.5 / 22.5 / 112.5 s and two drawn from the others, '
+               'thorough all 40; every second member starts on the last day of a month; advanced over the first midnight (thorough: '
+               'two) and one hour beyond; EVERY state compared with the calendar start + k * dt: month, day, day of year, secDay '
+               '(fractional seconds, exact), hourDay; an exception of update_date is a failure (no_timestep_error). UWG.dtsim is '
+               'an int - these steps reach the clock only through SimParam itself; the 45 integer divisors are the other ties',
+               mismatches=len(bad), branches=br)
+
+
 def run(chk):
     chk.proof(MODULE, THEOREMS)
     if chk.tier == 'thorough':
@@ -899,6 +934,9 @@ def run(chk):
     # ---- round 6: month-crossing runs, season / monthly look-ups judged per step -------------------
     season_family(chk)
 
+    # ---- round 7: fractional hour-dividing time steps on SimParam alone ---------------------------
+    fractional_step_family(chk)
+
     # ---- the property's own oracle on the implementation ----------------------------------------
     for b in oracle_bad[:3]:
         chk.violation('impl-violation', 'SimParam clock vs true calendar (datetime 2023)',
@@ -946,6 +984,12 @@ def replay(chk, path):
         season_family(chk)                  # the month-crossing family is re-explored (same seed)
         bad = [{'tie': w['theorem_or_tie'], 'observed': w['observed'], 'expected': w['expected']}
                for w in chk.violations[:1]]
+    elif c.get('replay_kind') == 'fractional-step':
+        import x3_util as X3
+        from uwg.simparam import SimParam
+        _n, b = X3.fractional_run(SimParam, c['dt'], c['M'], c['D'], c['seconds'])
+        if b:
+            bad.append(b)
     elif c.get('replay_kind') == 'float-loop':
         import v1_util as V
         fl = V.FloatLoop(buildings=1)
